@@ -88,7 +88,8 @@ def _is(x, y):
     if x is y:
         return True
     if isinstance(x, IntV) and isinstance(y, IntV):
-        return x.t.eq(y.t)
+        import z3
+        return z3.simplify(x.t).eq(z3.simplify(y.t))       # `0 + 1` (an index advanced by `i += 1`) is 1
     if isinstance(x, StrV) and isinstance(y, StrV):
         return x.value is not None and x.value == y.value
     return False
